@@ -724,16 +724,42 @@ pub fn run_history(env: &Env, rep: &mut Report, run: u64, case_seed: u64, nusers
                         if (seed_common ^ step as u64) % 2 == 0 {
                             let contested = format!("r{}contest{}", run, step);
                             let pw = ctx.fresh_password();
+                            // a participant with a password account and a session may try to RENAME itself to the
+                            // contested name instead of registering it (all its tasks are quiescent at this point)
+                            let can_rename = matches!(&ctx.m.identity, Some(i) if matches!(ctx.m.accounts.get(i), Some(Some(_))));
+                            let rename = can_rename && ctx.rng.bool();
                             barrier.wait();
                             let status = if alive && !shared.failed() {
-                                ctx.s.request("POST", "/users/register", Body::Json(json!({"username": contested, "password": pw}))).map(|r| r.status).unwrap_or(0)
+                                if rename {
+                                    ctx.s.request("PUT", "/users/update", Body::Json(json!({"username": contested, "password": pw}))).map(|r| r.status).unwrap_or(0)
+                                } else {
+                                    ctx.s.request("POST", "/users/register", Body::Json(json!({"username": contested, "password": pw}))).map(|r| r.status).unwrap_or(0)
+                                }
                             } else {
                                 0
                             };
                             shared.race.lock().unwrap().push((idx, status));
+                            shared.count(if rename { "race_renames" } else { "race_registrations" });
+                            if status == 200 && rename {
+                                let old = ctx.m.identity.clone().unwrap();
+                                ctx.m.accounts.remove(&old);
+                                let keys: Vec<(String, String)> = ctx.m.started.keys().filter(|k| k.0 == old).cloned().collect();
+                                for k in keys {
+                                    if let Some(v) = ctx.m.started.remove(&k) {
+                                        ctx.m.started.insert((contested.clone(), k.1.clone()), v);
+                                    }
+                                }
+                                let probs = ctx.m.problems.remove(&old).unwrap_or_default();
+                                ctx.m.problems.entry(contested.clone()).or_default().extend(probs);
+                                ctx.m.identity = Some(contested.clone());
+                            }
                             if status == 200 {
                                 ctx.m.accounts.insert(contested.clone(), Some(pw.clone()));
                                 ctx.m.old_passwords.push((contested.clone(), pw));
+                            }
+                            // whatever happened, the session must still be what the single-user model says
+                            if alive && !shared.failed() && status != 0 {
+                                alive = ctx.op_info();
                             }
                             let leader = barrier.wait().is_leader();
                             if leader {
@@ -838,6 +864,79 @@ fn late_writeback_probe(env: &Env, rep: &mut Report, run: u64) {
     let _ = v.request("DELETE", "/users/delete", Body::None);
 }
 
+/// dedicated probe: the name of an account that is being deleted is re-registered while the deletion's
+/// second database round trip is still pending; whatever the newcomer stores must survive
+fn delete_reuse_probe(env: &Env, rep: &mut Report, run: u64) {
+    let name = format!("r{}delreuse", run);
+    let (pw1, pw2) = (format!("PWtok{:016x}", run * 37 + 5), format!("PWtok{:016x}", run * 37 + 6));
+    let replay = json!({"property": "c17", "probe": "account-name-reused-during-deletion", "run": run});
+    let mut u = env.session();
+    if crate::c16::register_and_login(&mut u, &name, &pw1).is_err() {
+        return;
+    }
+    for p in ["a", "b"] {
+        let _ = add_problem(&mut u, p, &format!("s(mk{}u0q{}).ac(mk{}u0q{},c(v)).", run, p, run, p), "Naive");
+    }
+    // let the parse tasks finish, so that no background write-back interferes with this probe
+    for _ in 0..2000 {
+        if let Ok(r) = u.get("/adf/") {
+            let busy = r.json().and_then(|j| j.as_array().map(|a| a.iter().any(|p| p["acs_per_strategy"]["parse_only"]["type"] == "None" || p["running_tasks"].as_array().map(|t| !t.is_empty()).unwrap_or(false)))).unwrap_or(false);
+            if !busy {
+                break;
+            }
+        }
+        std::thread::sleep(std::time::Duration::from_millis(2));
+    }
+    // slow deletes on both collections: whichever the handler does second stays pending for a while
+    env.stub.set_latency("delete", "adf-problems", 400);
+    env.stub.set_latency("delete", "users", 400);
+    let mut vanished = None;
+    std::thread::scope(|sc| {
+        let h = sc.spawn(|| {
+            let mut u2 = u.clone();
+            u2.request("DELETE", "/users/delete", Body::None).map(|r| r.status).unwrap_or(0)
+        });
+        // the newcomer keeps trying to take the name; as soon as it succeeds it logs in and stores a problem
+        let mut v = env.session();
+        let mut registered = false;
+        for _ in 0..400 {
+            if let Ok(r) = v.request("POST", "/users/register", Body::Json(json!({"username": name, "password": pw2}))) {
+                if r.status == 200 {
+                    registered = true;
+                    break;
+                }
+            }
+            std::thread::sleep(std::time::Duration::from_millis(5));
+        }
+        let mut added = false;
+        if registered {
+            if let Ok(r) = v.request("POST", "/users/login", Body::Json(json!({"username": name, "password": pw2}))) {
+                if r.status == 200 {
+                    added = add_problem(&mut v, "mine", &format!("s(mk{}u1q1).ac(mk{}u1q1,c(f)).", run, run), "Naive").map(|r| r.status == 200).unwrap_or(false);
+                }
+            }
+        }
+        let _ = h.join();
+        // give a pending second delete time to land, then look
+        std::thread::sleep(std::time::Duration::from_millis(900));
+        if added {
+            if let Ok(r) = v.get("/adf/") {
+                let names: Vec<String> = r.json().and_then(|j| j.as_array().map(|a| a.iter().filter_map(|p| p["name"].as_str().map(|s| s.to_string())).collect())).unwrap_or_default();
+                if !names.contains(&"mine".to_string()) || names.len() != 1 {
+                    vanished = Some(format!("the newcomer stored problem \"mine\" (200) but now lists {:?}", names));
+                }
+            }
+        }
+        let _ = v.request("DELETE", "/users/delete", Body::None);
+    });
+    env.stub.set_latency("delete", "adf-problems", 0);
+    env.stub.set_latency("delete", "users", 0);
+    rep.count("delete_reuse_probes", 1);
+    if let Some(msg) = vanished {
+        rep.violation("problem-lost-after-name-reuse-during-deletion", msg, replay);
+    }
+}
+
 pub fn run(cfg: &crate::Cfg, rep: &mut Report) {
     let work = std::path::Path::new(&cfg.work).join("c17");
     let env = match Env::start(&cfg.server, "0-25", &work) {
@@ -859,6 +958,9 @@ pub fn run(cfg: &crate::Cfg, rep: &mut Report) {
         // vary database latency between runs (stretches the windows between a task's end and its write-back)
         env.stub.update_delay_ms.store([0, 0, 3, 12][i % 4], std::sync::atomic::Ordering::Relaxed);
         run_history(&env, rep, run, case_seed, nusers, steps);
+    }
+    if cfg.shard == 1 && rep.violations.is_empty() {
+        delete_reuse_probe(&env, rep, 8_000_000 + cfg.seed);
     }
     if cfg.shard == 0 && rep.violations.is_empty() {
         late_writeback_probe(&env, rep, 9_000_000 + cfg.seed);
